@@ -315,22 +315,86 @@ func (in *inliner) expandStmt(info *types.Info, call *ast.CallExpr, fd *ast.Func
 		return nil
 	}
 	body := fd.Body.List
+	nest := false
 	if shape == "S" {
 		rets := returnsIn(fd.Body)
-		if len(rets) > 1 {
-			return nil
-		}
-		if len(rets) == 1 {
-			if len(body) == 0 || body[len(body)-1] != ast.Stmt(rets[0]) {
+		switch {
+		case len(rets) == 0:
+		case len(rets) == 1 && len(body) > 0 && body[len(body)-1] == ast.Stmt(rets[0]):
+			body = body[:len(body)-1]
+		default:
+			// guard clauses: `if c { ..; return }` at statement-list level become `if c { .. } else { rest }`
+			if !guardOnly(body) {
 				return nil
 			}
-			body = body[:len(body)-1]
+			nest = true
 		}
 	}
 	cl := &cloner{info: info, subst: subst, fresh: fresh, lo: fd.Pos(), hi: fd.End()}
 	out := append([]ast.Stmt{}, binds...)
+	var copied []ast.Stmt
 	for _, s := range body {
-		out = append(out, cl.node(reflect.ValueOf(s)).Interface().(ast.Stmt))
+		copied = append(copied, cl.node(reflect.ValueOf(s)).Interface().(ast.Stmt))
+	}
+	if nest {
+		copied = nestGuards(copied)
+	}
+	return append(out, copied...)
+}
+
+// guardOnly: every return of the list is a bare return that is the last statement of the list itself or of the body of an
+// else-less `if` standing directly in the list (recursively) — the guard-clause shape.
+func guardOnly(list []ast.Stmt) bool {
+	for i, s := range list {
+		switch x := s.(type) {
+		case *ast.ReturnStmt:
+			if len(x.Results) != 0 || i != len(list)-1 {
+				return false
+			}
+		case *ast.IfStmt:
+			if len(returnsIn(x)) == 0 {
+				continue
+			}
+			if x.Else != nil || !guardOnly(x.Body.List) {
+				return false
+			}
+		default:
+			if len(returnsIn(s)) > 0 {
+				return false
+			}
+		}
+	}
+	return true
+}
+
+// nestGuards rewrites a guard-clause list (already copied) into return-free nested form.
+func nestGuards(list []ast.Stmt) []ast.Stmt {
+	var out []ast.Stmt
+	for i, s := range list {
+		switch x := s.(type) {
+		case *ast.ReturnStmt:
+			return out
+		case *ast.IfStmt:
+			if len(returnsIn(x)) == 0 {
+				out = append(out, s)
+				continue
+			}
+			endsInReturn := false
+			if n := len(x.Body.List); n > 0 {
+				_, endsInReturn = x.Body.List[n-1].(*ast.ReturnStmt)
+			}
+			x.Body.List = nestGuards(x.Body.List)
+			if endsInReturn {
+				rest := nestGuards(list[i+1:])
+				if len(rest) > 0 {
+					x.Else = &ast.BlockStmt{Lbrace: x.End(), List: rest, Rbrace: x.End()}
+				}
+				return append(out, x)
+			}
+			out = append(out, x)
+		default:
+			out = append(out, s)
+		}
 	}
 	return out
 }
